@@ -414,7 +414,8 @@ func pauseClasses() []time.Duration {
 	if hx.Thorough() {
 		return []time.Duration{5500 * time.Millisecond, 31 * time.Second, 62 * time.Second}
 	}
-	return []time.Duration{5500 * time.Millisecond}
+	// quick: beyond 5 s and beyond 10 s (keep-alive and idle time-outs cluster there)
+	return []time.Duration{5500 * time.Millisecond, 11500 * time.Millisecond}
 }
 
 // uploadSlowChild: one upload whose handler goes quiet between two pieces, with a failure after the whole body
